@@ -433,8 +433,8 @@ def load_known(prop: str) -> list[dict[str, Any]]:
 		with open(KNOWN_FINDINGS, encoding='utf-8') as f:
 			for line in f:
 				line = line.strip()
-				if not line or line.startswith('#'):
-					continue
+				if not line or line.startswith('#') or line.startswith('fixed:'):
+					continue  # comments; `fixed:` records suppress nothing
 				rec = json.loads(line)
 				if rec.get('property') == prop:
 					out.append(rec)
